@@ -1,28 +1,44 @@
 package main
 
 import (
+	"fmt"
+	"go/token"
 	"go/types"
+	"sort"
+	"strings"
 
 	"golang.org/x/tools/go/ssa"
 )
 
 // C12 — RunnerManager / RunnerCloserManager.
+//
+// The rules are evaluated by exploring the paths of the exported entry points
+// with every same-package callee virtually inlined (c12x.go), for each number
+// n = 0..4 of runners / closers (the statement's quantifier). Constructs are
+// identified by role — resolved through types and through what the exported
+// methods do with them — not by the names of unexported fields or helpers.
 
 func init() { register("C12", checkC12) }
 
 type c12 struct {
-	c   *Ctx
-	r   *Report
-	p   *Prog
-	pkg string
-	e   *LockEngine
+	c      *Ctx
+	r      *Report
+	p      *Prog
+	pkg    string
+	ssaPkg *ssa.Package
+	e      *LockEngine
 
-	// fields
-	rmRunners, rmRunning                                    FieldID
+	// roles (fields)
+	rmRunners, rmRunning, rmLock                            FieldID
 	cmMngr, cmClosers, cmRetErr, cmFatalFn, cmCloseFatal    FieldID
 	cmRunning, cmClosing, cmClosed, cmCloseCh, cmStopped    FieldID
 	lockID                                                  string
 	rmRun, rmAdd, cmRun, cmAdd, cmAddCloser, cmClose, cmNew *ssa.Function
+	anchors                                                 map[*ssa.Function]bool
+
+	viol map[string]map[string]bool // rule|construct -> messages
+	posn map[string]string
+	und  map[string]bool
 }
 
 // c12Worker is one `go` statement with a statically known body.
@@ -35,72 +51,215 @@ type c12Worker struct {
 
 func checkC12(c *Ctx) {
 	r, p := c.R, c.P
-	r.Explanation = "Decides structural necessary conditions of C12 on concurrency/runner.go and closer.go (SSA, all paths): " +
-		"(K0) both Run methods start work only on the success edge of an atomic test-and-set of `running`, RunnerManager.Add appends only when running is unset and otherwise returns a non-nil error; " +
-		"(K1) every runner goroutine invokes its own element of `runners` once with the context derived by context.WithCancel, calls that context's cancel on every path after the runner returned and never before, and sends exactly one result; the number of goroutines started equals the number of results collected (symbolically, len(runners)) and no return reachable from a spawn precedes the end of the collection; " +
-		"(K2) the only results replaced by nil / not appended are nil or context.Canceled ones, a Canceled error is filtered before errors.Join, and the value returned is that errors.Join; " +
-		"(K3) in RunnerCloserManager.Run every closer goroutine is started after the inner manager's result was obtained, one per element of `closers`, each calling its element once and sending its result once; results collected = goroutines started (1+len(closers)); every collected result is stored into the slice given to errors.Join; `closers` is read (loop bounds) under mngr.lock and `closing` is set before that lock section is left, every write of `closers` is under that lock, AddCloser observes closing == false inside the same lock section as its append, and every value AddCloser stores is the registered function, its bound Close method, or a wrapper calling it exactly once and returning its error; " +
-		"(K4) close(stopped) happens only on the success edge of the test-and-set of `running` (Run: deferred, after retErr was stored; Close: before waiting), Close waits for `stopped` before reading retErr and returns it, Run returns the value stored in retErr; close(closeCh) is guarded by a test-and-set; Run registers, before starting the inner manager, a runner that returns on closeCh or ctx.Done; " +
-		"(K5) fatalShutdownFn is called only, and always, on the timer case of a select that also waits for closeFatalShutdown, the timer runs for *gracePeriod, the fatal closer is registered iff gracePeriod != nil, and closeFatalShutdown is closed exactly once, at the program point where len(closers)-1 closer results have been collected and before the next receive (counted relative to the receive of the same iteration), in an iteration that also exists when the fatal closer is the only closer. " +
-		"NOT decided: behaviour over all completion orders and timings as such (that the Go scheduler/channel semantics deliver what the shapes promise), panics inside runners or closers, data-race freedom of RunnerManager.Run's unlocked reads of `runners` against a concurrent Add (outside the statement's quantifier; printed as NOTE), liveness of user-supplied runners/closers."
+	r.Explanation = "Decides necessary conditions of C12 by exploring every path of the exported entry points of concurrency/runner.go and closer.go on the SSA form, with every same-package callee (helpers, closures, method values, deferred calls) virtually inlined and with the number of runners / closers fixed to each n = 0..4 (the statement's quantifier); unexported fields are identified by role (type and use by the exported methods). " +
+		"(K0) both Run methods start goroutines only on paths on which their own atomic test-and-set of the running flag succeeded; RunnerManager.Add appends only on paths on which it read the flag unset and otherwise returns a non-nil error. " +
+		"(K1) every runner goroutine calls its own element runners[i] exactly once with the context derived by context.WithCancel, sends exactly one result after it, and calls that context's cancel on every path after the runner returned and never before; for every n, on every path Run starts one goroutine per element and receives exactly n results before it returns. " +
+		"(K2) nil is sent / a result is not handed to errors.Join only when it is known nil or context.Canceled; a result that may be Canceled is never joined; Run returns that errors.Join (or nil when nothing was joined). " +
+		"(K3) RunnerCloserManager.Run: closer goroutines start only after the inner manager's result was obtained, one per element of the closers, each calling its element once and sending its own result once; exactly n closer results are received, every received result is stored into the slice given to errors.Join, the Join is stored in the error field Close returns and is returned; after the inner result the closers are read only with the inner manager's lock held and the closing flag is set before that lock section is left; every write of the closers holds the lock; AddCloser appends only after reading closing == false inside the same lock section; every value it stores is the registered function, its bound Close, or a wrapper calling it exactly once and returning its error. " +
+		"(K4) the channel WaitUntilShutdown waits for is closed only by the party whose test-and-set of running succeeded (Run: on every owned return, after the error field was stored; Close: before it waits); Close tries running before waiting, waits on every path before reading the error field and returns it; the channel Close closes is closed under a test-and-set of a flag nobody else writes; Run registers (whenever the inner manager has runners, for 1 and 2 runners) before starting the inner manager a runner that returns on that channel or on ctx.Done; the constructor creates the three channels. " +
+		"(K5) the fatal-shutdown function is called only, and always, on the timer case of a select whose other case is the release channel; the timer runs for *gracePeriod; the fatal closer is registered exactly when gracePeriod != nil; in Run, for every n >= 1, the release channel is closed exactly once, when exactly n-1 closer results have been received, and before the receive of the n-th (so also when the fatal closer is the only closer). " +
+		"NOT decided: behaviour over all completion orders and timings as such (that the Go scheduler/channel semantics deliver what the paths promise), panics inside runners or closers, data-race freedom of RunnerManager.Run's unlocked reads of the runners against a concurrent Add (outside the statement's quantifier; NOTE), liveness of user-supplied runners/closers, more than 4 runners/closers."
 	r.Assumptions = append(r.Assumptions,
 		"context.WithCancel, errors.Join, errors.Is, sync/atomic.Bool and channel operations behave as documented",
-		"callers start RunnerManager.Run only after their Add calls returned (Run reads `runners` without the lock)",
-		"values are traced through local variable cells flow-insensitively; a cell assigned both a derived and a foreign value is accepted")
+		"callers start RunnerManager.Run only after their Add calls returned (Run reads the runners without the lock)",
+		"the paths of the entry points are explored with calls into other packages and dynamic calls treated as opaque; same-package callees are entered up to depth 6",
+		"values captured by goroutine closures are traced through their variable cells flow-insensitively")
 
-	x := &c12{c: c, r: r, p: p, pkg: p.ModPath + "/concurrency"}
+	x := &c12{c: c, r: r, p: p, pkg: p.ModPath + "/concurrency", viol: map[string]map[string]bool{}, posn: map[string]string{}, und: map[string]bool{}}
 	x.resolve()
 	x.e = c.Locks()
+	c12xStats.Explorations, c12xStats.States = 0, 0
+	c12xOnUninlined = func(root, callee *ssa.Function) {
+		x.undecide("while exploring %s the callee %s could not be entered (depth limit or recursion): its effects are unknown", FuncName(p, root), FuncName(p, callee))
+	}
+	c12xOnOverflow = func(root *ssa.Function) {
+		x.undecide("path exploration of %s exceeded its budget", FuncName(p, root))
+	}
 
-	r.Rule("C12.K0-once", "work starts only on the success edge of an atomic test-and-set of running; Add is rejected once running", 3)
-	r.Rule("C12.K1-worker", "runner goroutine: own runner once with the derived ctx, cancel after it returned on every path, exactly one result sent", 3)
-	r.Rule("C12.K1-count", "goroutines started == results collected; no return before the collection is complete", 1)
+	r.Rule("C12.K0-once", "work starts only after the caller's own atomic test-and-set of running succeeded; Add is rejected once running", 3)
+	r.Rule("C12.K1-worker", "runner goroutine: own runner once with the derived ctx, cancel after it returned on every path, exactly one result sent", 2)
+	r.Rule("C12.K1-count", "for n=0..4: one goroutine per runner, exactly n results received before Run returns", 1)
 	r.Rule("C12.K2-filter", "only nil/Canceled results are dropped, Canceled never reaches errors.Join, the Join is what is returned", 3)
 	r.Rule("C12.K3-order", "closer goroutines start only after the inner manager's result was obtained; one per element of closers, called once, result sent once", 4)
-	r.Rule("C12.K3-collect", "RunnerCloserManager.Run: results collected == goroutines started, every result stored into the errors.Join slice, Join stored in retErr and returned", 3)
-	r.Rule("C12.K3-lock", "closers read under mngr.lock with closing set before the section ends; every write of closers under mngr.lock; AddCloser tests closing inside the lock section of its append", 3)
+	r.Rule("C12.K3-collect", "RunnerCloserManager.Run, n=0..4: results received == goroutines started, every result stored into the errors.Join slice, Join stored in the error field and returned", 3)
+	r.Rule("C12.K3-lock", "closers read under the inner manager's lock with closing set before the section ends; every write of closers under the lock; AddCloser tests closing inside the lock section of its append", 3)
 	r.Rule("C12.K3-wrap", "every value AddCloser stores in closers invokes the registered closer exactly once and returns its error", 4)
-	r.Rule("C12.K4-stopped", "close(stopped) only after winning running; Run stores retErr before it; Close waits before reading retErr", 5)
-	r.Rule("C12.K4-closech", "close(closeCh) guarded by a test-and-set; Run registers a runner returning on closeCh / ctx.Done before starting the inner manager", 2)
-	r.Rule("C12.K4-chans", "the constructor creates stopped, closeCh and closeFatalShutdown", 3)
-	r.Rule("C12.K5-fatal", "fatalShutdownFn fires exactly on the grace timer case; closeFatalShutdown closed when only the fatal closer remains, before the receive that waits for it (also when it is the only closer)", 3)
+	r.Rule("C12.K4-stopped", "stopped closed only after winning running; Run stores the error field before it; Close waits before reading it", 5)
+	r.Rule("C12.K4-closech", "close of the Close channel guarded by a test-and-set; Run registers a runner returning on it / ctx.Done before starting the inner manager", 2)
+	r.Rule("C12.K4-chans", "the constructor creates the three signalling channels", 3)
+	r.Rule("C12.K5-fatal", "fatalShutdownFn fires exactly on the grace timer case; release channel closed when only the fatal closer remains, before the receive that waits for it", 3)
 
-	x.checkOnce()
+	x.checkOnceAdd()
 	x.checkRunnerRun()
 	x.checkCloserRun()
 	x.checkLocking()
 	x.checkWrappers()
-	x.checkStopped()
-	x.checkCloseCh()
-	x.checkChans()
-	x.checkFatal()
+	x.checkClose()
+	x.checkConstructor()
 	x.notes()
+	x.flush()
+	r.Stats["c12_explorations"] = c12xStats.Explorations
+	r.Stats["c12_path_states"] = c12xStats.States
 	x.fixture()
 }
 
+// ------------------------------------------------------------ result plumbing
+
+// bad records a violation message for (rule, construct); messages of one
+// obligation are merged. ok records that the obligation was examined.
+func (x *c12) bad(rule, construct, pos, msg string) {
+	k := rule + "|" + construct
+	if x.viol[k] == nil {
+		x.viol[k] = map[string]bool{}
+	}
+	x.viol[k][msg] = true
+	if pos != "" && (x.posn[k] == "" || pos < x.posn[k]) {
+		x.posn[k] = pos
+	}
+}
+
+func (x *c12) seen(rule, construct, pos string) {
+	k := rule + "|" + construct
+	if x.viol[k] == nil {
+		x.viol[k] = map[string]bool{}
+	}
+	if x.posn[k] == "" {
+		x.posn[k] = pos
+	}
+}
+
+func (x *c12) undecide(format string, args ...any) {
+	x.und[strings.TrimSpace(fmt.Sprintf(format, args...))] = true
+}
+
+func (x *c12) flush() {
+	var us []string
+	for m := range x.und {
+		us = append(us, m)
+	}
+	sort.Strings(us)
+	for _, m := range us {
+		x.r.Undecide("%s", m)
+	}
+	x.und = map[string]bool{}
+	var keys []string
+	for k := range x.viol {
+		keys = append(keys, k)
+	}
+	sort.Strings(keys)
+	for _, k := range keys {
+		i := strings.Index(k, "|")
+		rule, construct := k[:i], k[i+1:]
+		var msgs []string
+		for m := range x.viol[k] {
+			msgs = append(msgs, m)
+		}
+		sort.Strings(msgs)
+		if len(msgs) > 3 {
+			msgs = append(msgs[:3], fmt.Sprintf("(+%d more)", len(msgs)-3))
+		}
+		x.r.Check(len(msgs) == 0, rule, construct, x.posn[k], "holds on every explored path", strings.Join(msgs, "; "))
+	}
+}
+
+func (x *c12) pos(in ssa.Instruction) string { return x.p.Pos(instrPos(in)) }
+
+// ------------------------------------------------------------------- roles
+
+func (x *c12) structOf(tn string) (*types.Named, *types.Struct) {
+	n := x.p.Named("concurrency", tn)
+	st, ok := n.Underlying().(*types.Struct)
+	if !ok {
+		undecided("anchor type concurrency.%s is no longer a struct", tn)
+	}
+	return n, st
+}
+
+// fieldsWhere returns the fields of struct type tn whose type satisfies pred.
+func (x *c12) fieldsWhere(tn string, pred func(types.Type) bool) []FieldID {
+	_, st := x.structOf(tn)
+	var out []FieldID
+	for i := 0; i < st.NumFields(); i++ {
+		if pred(st.Field(i).Type()) {
+			out = append(out, FieldID{x.pkg + "." + tn, st.Field(i).Name()})
+		}
+	}
+	return out
+}
+
+// pick chooses the field playing a role: the unique candidate, else the one
+// with the hinted (historical) name, else UNDECIDED.
+func (x *c12) pick(role string, cands []FieldID, hint string) FieldID {
+	if len(cands) == 1 {
+		return cands[0]
+	}
+	for _, c := range cands {
+		if c.Field == hint {
+			return c
+		}
+	}
+	undecided("C12: cannot identify the field playing the role %q (%d candidates)", role, len(cands))
+	return FieldID{}
+}
+
+// tree: fn, its closures and its same-package static callees (transitively),
+// not entering the exported anchors.
+func (x *c12) tree(fn *ssa.Function) map[*ssa.Function]bool {
+	out := map[*ssa.Function]bool{}
+	var visit func(f *ssa.Function)
+	visit = func(f *ssa.Function) {
+		if f == nil || out[f] || len(f.Blocks) == 0 {
+			return
+		}
+		if f != fn && x.anchors[f] {
+			return
+		}
+		out[f] = true
+		allInstrs(f, func(in ssa.Instruction) {
+			switch v := in.(type) {
+			case ssa.CallInstruction:
+				if c := staticCallee(v); c != nil && x.inPkg(c) {
+					visit(c)
+				}
+			case *ssa.MakeClosure:
+				if c, ok := v.Fn.(*ssa.Function); ok {
+					visit(c)
+				}
+			}
+			for _, op := range in.Operands(nil) {
+				if op == nil || *op == nil {
+					continue
+				}
+				if c, ok := (*op).(*ssa.Function); ok && x.inPkg(c) {
+					visit(c)
+				}
+			}
+		})
+	}
+	visit(fn)
+	return out
+}
+
+func (x *c12) inPkg(f *ssa.Function) bool {
+	if f == nil {
+		return false
+	}
+	if f.Pkg != nil {
+		return f.Pkg == x.ssaPkg
+	}
+	if f.Synthetic != "" { // bound method wrappers / thunks of package methods
+		if o := f.Object(); o != nil && o.Pkg() != nil {
+			return o.Pkg().Path() == x.pkg
+		}
+		return true
+	}
+	return f.Parent() != nil && x.inPkg(f.Parent())
+}
+
+func isChanType(t types.Type) bool { _, ok := t.Underlying().(*types.Chan); return ok }
+
 func (x *c12) resolve() {
 	p := x.p
-	field := func(tn, f string) FieldID {
-		n := p.Named("concurrency", tn)
-		st, ok := n.Underlying().(*types.Struct)
-		if !ok {
-			undecided("anchor type concurrency.%s is no longer a struct", tn)
-		}
-		for i := 0; i < st.NumFields(); i++ {
-			if st.Field(i).Name() == f {
-				return FieldID{x.pkg + "." + tn, f}
-			}
-		}
-		undecided("anchor field concurrency.%s.%s no longer resolves", tn, f)
-		return FieldID{}
-	}
-	x.rmRunners, x.rmRunning = field("RunnerManager", "runners"), field("RunnerManager", "running")
-	field("RunnerManager", "lock")
-	x.lockID = x.pkg + ".RunnerManager.lock"
-	x.cmMngr, x.cmClosers, x.cmRetErr = field("RunnerCloserManager", "mngr"), field("RunnerCloserManager", "closers"), field("RunnerCloserManager", "retErr")
-	x.cmFatalFn, x.cmCloseFatal = field("RunnerCloserManager", "fatalShutdownFn"), field("RunnerCloserManager", "closeFatalShutdown")
-	x.cmRunning, x.cmClosing, x.cmClosed = field("RunnerCloserManager", "running"), field("RunnerCloserManager", "closing"), field("RunnerCloserManager", "closed")
-	x.cmCloseCh, x.cmStopped = field("RunnerCloserManager", "closeCh"), field("RunnerCloserManager", "stopped")
 	x.rmRun = p.Func("concurrency", "RunnerManager.Run")
 	x.rmAdd = p.Func("concurrency", "RunnerManager.Add")
 	x.cmRun = p.Func("concurrency", "RunnerCloserManager.Run")
@@ -108,131 +267,300 @@ func (x *c12) resolve() {
 	x.cmAddCloser = p.Func("concurrency", "RunnerCloserManager.AddCloser")
 	x.cmClose = p.Func("concurrency", "RunnerCloserManager.Close")
 	x.cmNew = p.Func("concurrency", "NewRunnerCloserManager")
-}
+	x.ssaPkg = x.rmRun.Pkg
+	x.anchors = map[*ssa.Function]bool{x.rmRun: true, x.rmAdd: true, x.cmRun: true, x.cmAdd: true, x.cmAddCloser: true, x.cmClose: true, x.cmNew: true}
+	if f := p.FuncOpt("concurrency", "NewRunnerManager"); f != nil {
+		x.anchors[f] = true
+	}
+	runner := p.Named("concurrency", "Runner")
+	rm, _ := x.structOf("RunnerManager")
 
-func (x *c12) pos(in ssa.Instruction) string { return x.p.Pos(instrPos(in)) }
+	isAtomicBool := func(t types.Type) bool { return namedKey(t) == "sync/atomic.Bool" }
+	isMutex := func(t types.Type) bool { k := namedKey(t); return k == "sync.Mutex" || k == "sync.RWMutex" }
 
-// workers lists the go statements of fn; ok=false if one has no static body.
-func (x *c12) workers(fn *ssa.Function) (ws []*c12Worker, ok bool) {
-	ok = true
-	allInstrs(fn, func(in ssa.Instruction) {
-		g, isGo := in.(*ssa.Go)
-		if !isGo {
-			return
+	x.rmRunners = x.pick("runners", x.fieldsWhere("RunnerManager", func(t types.Type) bool {
+		s, ok := t.Underlying().(*types.Slice)
+		return ok && types.Identical(s.Elem(), runner)
+	}), "runners")
+	x.rmRunning = x.pick("RunnerManager running flag", x.fieldsWhere("RunnerManager", isAtomicBool), "running")
+	x.rmLock = x.pick("RunnerManager lock", x.fieldsWhere("RunnerManager", func(t types.Type) bool {
+		if _, isPtr := t.(*types.Pointer); isPtr {
+			return false
 		}
-		callee := staticCallee(g)
-		if callee == nil || len(callee.Blocks) == 0 {
-			x.r.Undecide("%s starts a goroutine whose body is not statically known (%s)", FuncName(x.p, fn), x.pos(g))
-			ok = false
-			return
-		}
-		ws = append(ws, &c12Worker{Go: g, Fn: callee, Bind: c12BindOf(g, callee), Name: FuncName(x.p, callee)})
-	})
-	return
-}
+		return isMutex(t)
+	}), "lock")
+	x.lockID = x.rmLock.Type + "." + x.rmLock.Field
 
-func c12GoSites(fn *ssa.Function) []*ssa.Go {
-	var out []*ssa.Go
-	allInstrs(fn, func(in ssa.Instruction) {
-		if g, ok := in.(*ssa.Go); ok {
-			out = append(out, g)
+	x.cmMngr = x.pick("inner manager", x.fieldsWhere("RunnerCloserManager", func(t types.Type) bool {
+		return types.Identical(deref(t), rm)
+	}), "mngr")
+	x.cmClosers = x.pick("closers", x.fieldsWhere("RunnerCloserManager", func(t types.Type) bool {
+		s, ok := t.Underlying().(*types.Slice)
+		if !ok {
+			return false
 		}
-	})
-	return out
-}
+		sig, ok := s.Elem().Underlying().(*types.Signature)
+		return ok && sig.Params().Len() == 0 && sig.Results().Len() == 1 && types.Identical(sig.Results().At(0).Type(), types.Universe.Lookup("error").Type())
+	}), "closers")
+	x.cmRetErr = x.pick("stored result error", x.fieldsWhere("RunnerCloserManager", func(t types.Type) bool {
+		return types.Identical(t, types.Universe.Lookup("error").Type())
+	}), "retErr")
+	x.cmFatalFn = x.pick("fatal shutdown function", x.fieldsWhere("RunnerCloserManager", func(t types.Type) bool {
+		sig, ok := t.Underlying().(*types.Signature)
+		return ok && sig.Params().Len() == 0 && sig.Results().Len() == 0
+	}), "fatalShutdownFn")
 
-// ------------------------------------------------------------------ K0
-
-func (x *c12) checkOnce() {
-	r, p := x.r, x.p
-	for _, it := range []struct {
-		fn    *ssa.Function
-		field FieldID
-		what  string
-	}{
-		{x.rmRun, x.rmRunning, "a second Run would start every runner again"},
-		{x.cmRun, x.cmRunning, "a second Run, or a Run after Close, would start the runners and closers again and close `stopped` twice"},
-	} {
-		construct := FuncName(p, it.fn) + " once-guard"
-		own := c12OwnEdges(it.fn, it.field)
-		gos := c12GoSites(it.fn)
-		if len(gos) == 0 {
-			r.Violation("C12.K0-once", construct, p.Pos(it.fn.Pos()), "Run no longer starts any goroutine: runners are not run in parallel")
-			continue
-		}
-		if len(own) == 0 && it.fn == x.rmRun {
-			// Load-then-Store: refuses a second Run in sequence; two Runs racing
-			// each other are not in the statement's quantifier for RunnerManager.
-			unset := c12UnsetEdges(it.fn, it.field)
-			var sets []*ssa.Call
-			for _, s := range c12FlagCalls(it.fn, it.field, "Store") {
-				if len(s.Call.Args) == 2 && c12IsConstBool(s.Call.Args[1], true) {
-					sets = append(sets, s)
-				}
+	// channels by role
+	chans := x.fieldsWhere("RunnerCloserManager", isChanType)
+	isChanField := func(id FieldID) bool {
+		for _, c := range chans {
+			if c == id {
+				return true
 			}
-			okAll := len(unset) > 0 && len(sets) > 0
-			for _, g := range gos {
-				dom := false
-				for _, s := range sets {
-					if instrDominates(s, g) {
-						dom = true
+		}
+		return false
+	}
+	closedIn := func(root *ssa.Function) map[FieldID]bool {
+		out := map[FieldID]bool{}
+		for f := range x.tree(root) {
+			allInstrs(f, func(in ssa.Instruction) {
+				if ci, ok := in.(ssa.CallInstruction); ok && builtinName(ci) == "close" && len(ci.Common().Args) == 1 {
+					if id, _, ok := fieldOfValue(ci.Common().Args[0]); ok && isChanField(id) {
+						out[id] = true
 					}
 				}
-				if !dom || !c12AnyDominates(unset, g.Block()) {
-					okAll = false
-				}
-			}
-			if okAll {
-				r.OK("C12.K0-once", construct, p.Pos(it.fn.Pos()), "every go statement follows running.Load()==false and running.Store(true)")
-				r.Note("%s guards with Load+Store instead of an atomic test-and-set: two Run calls racing each other can both start the runners (concurrent Run calls are not in the statement's quantifier; not armed)", FuncName(p, it.fn))
-				continue
-			}
+			})
 		}
-		if len(own) == 0 {
-			r.Violation("C12.K0-once", construct, p.Pos(it.fn.Pos()), "Run no longer takes ownership with an atomic test-and-set of "+it.field.String()+" (CompareAndSwap(false,true) / Swap(true) used directly as a branch condition): "+it.what)
-			continue
-		}
-		bad := ""
-		for _, g := range gos {
-			if !c12AnyDominates(own, g.Block()) {
-				bad = x.pos(g)
-			}
-		}
-		r.Check(bad == "", "C12.K0-once", construct, p.Pos(own[0].Call.Pos()),
-			"every go statement is dominated by the success edge of the test-and-set of "+it.field.String(),
-			"the goroutine started at "+bad+" is not dominated by the success edge of the test-and-set of "+it.field.String()+": "+it.what)
+		return out
 	}
-
-	// RunnerManager.Add
-	construct := FuncName(p, x.rmAdd) + " rejects after start"
-	unset := c12UnsetEdges(x.rmAdd, x.rmRunning)
-	nW, bad := 0, ""
-	for _, a := range FieldAccesses(x.rmAdd, func(id FieldID) bool { return id == x.rmRunners }) {
-		if a.Kind != AccWrite {
-			continue
-		}
-		nW++
-		if !c12AnyDominates(unset, a.Instr.Block()) {
-			bad = "the append to runners at " + x.pos(a.Instr) + " is not guarded by running.Load() == false: a runner added after Run started is never started, and Run — whose collection bound re-reads len(runners) — waits for a result that never comes"
-		}
-	}
-	if nW == 0 {
-		r.Undecide("%s no longer stores to RunnerManager.runners (Add restructured)", FuncName(p, x.rmAdd))
-	} else {
-		for _, call := range c12FlagCalls(x.rmAdd, x.rmRunning, "Load") {
-			for _, se := range c12BranchEdges(call, true, "Load") {
-				for _, ret := range c12Returns(x.rmAdd) {
-					if !se.Dominates(ret.Block()) {
-						continue
+	recvIn := func(root *ssa.Function) map[FieldID]bool {
+		out := map[FieldID]bool{}
+		for f := range x.tree(root) {
+			allInstrs(f, func(in ssa.Instruction) {
+				if u, ok := in.(*ssa.UnOp); ok && u.Op == token.ARROW {
+					if id, _, ok := fieldOfValue(u.X); ok && isChanField(id) {
+						out[id] = true
 					}
-					for _, root := range c12ReturnRoots(ret, 0) {
-						if isNilConst(root) && bad == "" {
-							bad = "Add returns nil at " + x.pos(ret) + " although the manager is already running (the addition is silently dropped instead of rejected)"
+				}
+				if sel, ok := in.(*ssa.Select); ok {
+					for _, st := range sel.States {
+						if id, _, ok := fieldOfValue(st.Chan); ok && isChanField(id) && st.Dir == types.RecvOnly {
+							out[id] = true
 						}
 					}
 				}
+			})
+		}
+		return out
+	}
+	only := func(m map[FieldID]bool, except ...FieldID) []FieldID {
+		var out []FieldID
+		for id := range m {
+			skip := false
+			for _, e := range except {
+				if e == id {
+					skip = true
+				}
+			}
+			if !skip {
+				out = append(out, id)
 			}
 		}
-		r.Check(bad == "", "C12.K0-once", construct, p.Pos(x.rmAdd.Pos()), "runners is appended only when running is unset; the running branch returns a non-nil error", bad)
+		sort.Slice(out, func(i, j int) bool { return out[i].Field < out[j].Field })
+		return out
 	}
+	byName := func(name string) []FieldID {
+		for _, c := range chans {
+			if c.Field == name {
+				return []FieldID{c}
+			}
+		}
+		return chans
+	}
+	runCloses, closeCloses := closedIn(x.cmRun), closedIn(x.cmClose)
+	var stoppedC []FieldID
+	if wus := p.FuncOpt("concurrency", "RunnerCloserManager.WaitUntilShutdown"); wus != nil {
+		stoppedC = only(recvIn(wus))
+	}
+	if len(stoppedC) != 1 {
+		both := map[FieldID]bool{}
+		for id := range runCloses {
+			if closeCloses[id] {
+				both[id] = true
+			}
+		}
+		stoppedC = only(both)
+	}
+	if len(stoppedC) != 1 {
+		stoppedC = byName("stopped")
+	}
+	x.cmStopped = x.pick("channel signalling shutdown complete", stoppedC, "stopped")
+	cc := only(closeCloses, x.cmStopped)
+	if len(cc) != 1 {
+		cc = byName("closeCh")
+	}
+	x.cmCloseCh = x.pick("channel closed by Close", cc, "closeCh")
+	fc := only(runCloses, x.cmStopped, x.cmCloseCh)
+	if len(fc) != 1 {
+		var rest []FieldID
+		for _, c := range chans {
+			if c != x.cmStopped && c != x.cmCloseCh {
+				rest = append(rest, c)
+			}
+		}
+		fc = rest
+	}
+	x.cmCloseFatal = x.pick("channel releasing the fatal closer", fc, "closeFatalShutdown")
+
+	// atomic flags by role
+	flags := x.fieldsWhere("RunnerCloserManager", isAtomicBool)
+	flagOps := func(root *ssa.Function, names ...string) map[FieldID]bool {
+		out := map[FieldID]bool{}
+		for f := range x.tree(root) {
+			for _, fl := range flags {
+				for _, n := range names {
+					if len(c12FlagCalls(f, fl, n)) > 0 {
+						out[fl] = true
+					}
+				}
+			}
+		}
+		return out
+	}
+	flagByName := func(name string) []FieldID {
+		for _, c := range flags {
+			if c.Field == name {
+				return []FieldID{c}
+			}
+		}
+		return flags
+	}
+	run := only(flagOps(x.cmRun, "CompareAndSwap", "Swap"))
+	if len(run) != 1 {
+		run = flagByName("running")
+	}
+	x.cmRunning = x.pick("RunnerCloserManager running flag", run, "running")
+	cl := only(flagOps(x.cmAddCloser, "Load"), x.cmRunning)
+	if len(cl) != 1 {
+		cl = only(flagOps(x.cmRun, "Store"), x.cmRunning)
+	}
+	if len(cl) != 1 {
+		cl = flagByName("closing")
+	}
+	x.cmClosing = x.pick("closing flag", cl, "closing")
+	cd := only(flagOps(x.cmClose, "CompareAndSwap", "Swap", "Store", "Load"), x.cmRunning, x.cmClosing)
+	if len(cd) != 1 {
+		var rest []FieldID
+		for _, f := range flags {
+			if f != x.cmRunning && f != x.cmClosing {
+				rest = append(rest, f)
+			}
+		}
+		cd = rest
+	}
+	if len(cd) == 1 {
+		x.cmClosed = cd[0]
+	} // else: no dedicated flag (e.g. a sync.Once); the Close rule copes
+}
+
+// -------------------------------------------------------- event recognisers
+
+func (x *c12) flagCall(in ssa.Instruction, f FieldID, name string) (*ssa.Call, bool) {
+	call, ok := in.(*ssa.Call)
+	if !ok || !callIs(call, "sync/atomic", "Bool", name) || len(call.Call.Args) == 0 {
+		return nil, false
+	}
+	id, _, ok := fieldOfValue(call.Call.Args[0])
+	return call, ok && id == f
+}
+
+// tasWon: the branch (cond, truth) is the success of an atomic test-and-set
+// of flag f (CompareAndSwap(false,true) == true, Swap(true) == false).
+func (x *c12) tasWon(cond xVal, truth bool, f FieldID) bool {
+	if cond.K != xAtom {
+		return false
+	}
+	call, ok := cond.V.(*ssa.Call)
+	if !ok {
+		return false
+	}
+	if c, ok := x.flagCall(call, f, "CompareAndSwap"); ok && truth {
+		a := c.Call.Args
+		return len(a) == 3 && c12IsConstBool(a[1], false) && c12IsConstBool(a[2], true)
+	}
+	if c, ok := x.flagCall(call, f, "Swap"); ok && !truth {
+		a := c.Call.Args
+		return len(a) == 2 && c12IsConstBool(a[1], true)
+	}
+	return false
+}
+
+// tasTried: cond is the result of a test-and-set of f (either outcome).
+func (x *c12) tasTried(cond xVal, f FieldID) bool {
+	return x.tasWon(cond, true, f) || x.tasWon(cond, false, f)
+}
+
+// loadIs: cond is the result of f.Load().
+func (x *c12) loadIs(cond xVal, f FieldID) bool {
+	if cond.K != xAtom {
+		return false
+	}
+	call, ok := cond.V.(*ssa.Call)
+	if !ok {
+		return false
+	}
+	_, ok = x.flagCall(call, f, "Load")
+	return ok
+}
+
+// closeOf: in (a call or defer of builtin close) closes a channel that
+// evaluates to field f.
+func (x *c12) closeOf(st *xState, in ssa.Instruction, f FieldID) bool {
+	ci, ok := in.(ssa.CallInstruction)
+	if !ok || builtinName(ci) != "close" || len(ci.Common().Args) != 1 {
+		return false
+	}
+	return x.isField(st, ci.Common().Args[0], f)
+}
+
+func (x *c12) isField(st *xState, v ssa.Value, f FieldID) bool {
+	if id, _, ok := fieldOfValue(v); ok {
+		return id == f
+	}
+	ev := st.Eval(v)
+	if ev.K == xField {
+		return ev.Fld == f
+	}
+	for _, root := range st.Static(ev) {
+		if id, _, ok := fieldOfValue(root); ok && id == f {
+			return true
+		}
+	}
+	return false
+}
+
+// lockOp classifies a call/defer as Lock (+1) / Unlock (-1) of the inner
+// manager's lock, 0 otherwise.
+func (x *c12) lockOp(ci ssa.CallInstruction) int {
+	obj := calleeObj(ci)
+	if obj == nil || ci.Common().IsInvoke() || len(ci.Common().Args) == 0 {
+		return 0
+	}
+	if id, _, ok := fieldOfValue(ci.Common().Args[0]); !ok || id != x.rmLock {
+		return 0
+	}
+	switch obj.Name() {
+	case "Lock":
+		return 1
+	case "Unlock":
+		return -1
+	}
+	return 0
+}
+
+func (x *c12) noInline(fn *ssa.Function) bool { return x.anchors[fn] }
+
+// calleeFn resolves the function started by a go statement / called by a call.
+func (x *c12) calleeFn(st *xState, ci ssa.CallInstruction) (*ssa.Function, *xVal) {
+	return st.x.calleeOf(st, st.fr, ci.Common())
 }
